@@ -149,19 +149,20 @@ func (ex *Exec) chanRecv(fr *frame, x *ssa.UnOp, ch Val, st *State, reach *strin
 
 // goStmt: spawning a goroutine from verified code is handled by spawn declarations.
 func (fr *frame) goStmt(x *ssa.Go, st *State, reach *string) {
-	ex := fr.ex
-	if fr.c != nil && fr.c.spawnOK() || ex.spawnsAllowed {
-		fr.spawn(&x.Call, st, reach, x)
-		return
+	var f Val
+	switch callee := x.Call.Value.(type) {
+	case *ssa.MakeClosure:
+		f = fr.val(callee)
+	case *ssa.Function:
+		f = Val{T: callee.Type(), L: []string{"1"}, F: &FuncInfo{Fn: callee}}
+	default:
+		f = fr.val(x.Call.Value)
 	}
-	panic(unsupported(fmt.Sprintf("go statement in %s without a spawn declaration", fr.fn)))
+	fr.spawnClosure(f, st, *reach, fmt.Sprintf("go statement in %s", fr.fn.Name()))
 }
 
 func (c *Contract) spawnOK() bool { return len(c.Spawns) > 0 }
 
 var _ = token.ADD
 
-// spawn is filled in by the concurrency layer.
-func (fr *frame) spawn(cc *ssa.CallCommon, st *State, reach *string, instr ssa.Instruction) {
-	panic(unsupported("spawn not implemented"))
-}
+
